@@ -394,7 +394,11 @@ def ref_transform(g, root, callbacks, log):
             cur = cb(prev)
             # "without metadata of its own": nothing recorded, or nothing but empty entries (an operator
             # node that came out of a parse has no span of its own)
-            if cur is not prev and is_obj(g, prev) and is_obj(g, cur) and not any(v is not None for v in cur._metadata._fields.values()):
+            if cur is not prev and is_obj(g, prev) and is_obj(g, cur) and not any(v is not None for v in cur._metadata._fields.values()) \
+                    and prev._metadata._fields:
+                # the replacement may be an object of the INPUT tree (a child handed back by the callback),
+                # and the input is never modified: the metadata goes to an equal object, not to it
+                cur = type(cur)(**{f: getattr(cur, f) for f in type(cur)._fields})
                 cur._metadata.update(prev._metadata)
         return cur
     return _run_deep(go, root)
